@@ -25,22 +25,6 @@ theorem C01_sizes_monotone {s : Sys} (r : Reachable s) :
 theorem C01_pub_committed {s : Sys} (r : Reachable s) : ∀ c ∈ s.pubHist, c ∈ s.lockHist :=
   (inv_reachable r).pub
 
-/-- any two elements of a pairwise-ordered list are related one way or the other -/
-theorem pairwise_total {α : Type} {R : α → α → Prop} : ∀ {l : List α}, l.Pairwise R →
-    ∀ a ∈ l, ∀ b ∈ l, a = b ∨ R a b ∨ R b a
-  | [], _, a, ha, _, _ => by cases ha
-  | x :: xs, h, a, ha, b, hb => by
-    obtain ⟨hx, hxs⟩ := List.pairwise_cons.1 h
-    cases ha with
-    | head =>
-      cases hb with
-      | head => exact Or.inl rfl
-      | tail _ hb' => exact Or.inr (Or.inl (hx b hb'))
-    | tail _ ha' =>
-      cases hb with
-      | head => exact Or.inr (Or.inr (hx a ha'))
-      | tail _ hb' => exact pairwise_total hxs a ha' b hb'
-
 /-- hence no fork: any two checkpoints ever committed or published are comparable -/
 theorem C01_no_fork {s : Sys} (r : Reachable s) :
     ∀ c ∈ s.pubHist ++ s.lockHist, ∀ d ∈ s.pubHist ++ s.lockHist, c.leaves <+: d.leaves ∨ d.leaves <+: c.leaves := by
